@@ -19,9 +19,13 @@ SKELETONS = [
     ("scheme-sep", "http", "x.fr/a b/%7e?k=%41"),
     ("after-host", "http://x.fr", ""),
     ("whole", "", ""),
+    ("path-escape", "http://x.fr/a/%", "/b"),
+    ("query-escape", "http://x.fr/a?k=%", "&l"),
+    ("userinfo-escape", "http://u%", "@x.fr/"),
+    ("fragment-escape", "http://x.fr/#%", ""),
 ]
 BOUNDS = {
-    "quick": "14 URL skeletons (hole in path tail/middle/root, username, password, host tail, port, query key/value, fragment, before the scheme, scheme separator, after the host, whole string) x every hole string of length 0..2 (3 for path/query/fragment holes) over all code points x quoted in {F,T} x strip_fragment in {F,T} x default_protocol in {https, http}",
+    "quick": "18 URL skeletons (hole in path tail/middle/root, username, password, host tail, port, query key/value, fragment, before the scheme, scheme separator, after the host, whole string, and right after a '%' in path / query value / username / fragment) x every hole string of length 0..2 (3 for the path-tail hole and the four holes after a '%') over all code points x quoted x strip_fragment (all four combinations up to length 1, (F,F) and (T,T) beyond) x default_protocol in {https, http}",
     "thorough": "same skeletons, holes of length 0..4 (3 in netloc positions)",
 }
 STUBS = ["UTF-8 codec, urllib.parse.quote, dict table lookups, regex matcher (see C14)", "stdlib urlsplit / SplitResult properties / urlunsplit interpreted from source",
@@ -30,7 +34,8 @@ STUBS = ["UTF-8 codec, urllib.parse.quote, dict table lookups, regex matcher (se
 TRUSTED = ["spec/url.py (reference denotation: cleaning, dot-segment / empty-segment resolution, query reader), spec/common.py pct_decode", "pysx engine", "z3"]
 ASSUMPTIONS = ["inputs that the standard parser rejects (ValueError) are outside the property", "'' and absent userinfo/fragment are identified; '' and '/' paths are identified; '+' in queries is literal",
                "a '%2E' dot-segment denotes the same as '.'", "IDNA spelling of hosts is not decided (C code)"]
-LONG = ("path-tail", "path-mid", "path-root", "query-key", "query-value", "fragment")
+LONG = ("path-tail", "path-mid", "path-root", "query-key", "query-value", "fragment", "path-escape", "query-escape",
+        "userinfo-escape", "fragment-escape")
 
 
 def canon(st, skel, n, quoted, strip_fragment, dp):
@@ -40,18 +45,26 @@ def canon(st, skel, n, quoted, strip_fragment, dp):
         run_prop(st, label, prop, u, quoted, strip_fragment, dp)
 
 
+N3 = ("path-tail", "path-escape", "query-escape", "userinfo-escape", "fragment-escape")
+
+
 def items(tier):
     quick = tier == "quick"
     out = []
     for i, (name, pre, post) in enumerate(SKELETONS):
-        nmax = (3 if name in LONG else 2) if quick else (4 if name in LONG else 3)
+        if quick:
+            nmax = 3 if name in N3 else 2
+        else:
+            nmax = 4 if name in LONG else 3
         for n in range(0, nmax + 1):
             for quoted in (False, True):
                 for sf in (False, True):
+                    if quick and n >= 2 and quoted != sf:
+                        continue
                     dp = "https" if (n + sf) % 2 == 0 else "http"
                     it = {"fn": "canon", "params": {"skel": i, "n": n, "quoted": quoted, "strip_fragment": sf, "dp": dp},
                           "name": "%s n=%d quoted=%s sf=%s" % (name, n, quoted, sf), "weight": 8 ** n}
-                    if n >= 3:
-                        it["defer_depth"] = 8
+                    if n >= 2:
+                        it["defer_depth"] = 6 if n == 2 else 12
                     out.append(it)
     return out
